@@ -564,6 +564,7 @@ def _judge_node(ev, b, spec, schema, r, pidx, xsd) -> list[Disc]:
                                           cv, gc, where))
 
     # ---- (3) instance of element(*, T) / attribute(*, T) ------------------------------------------------
+    batch: list = []     # (expression, expected, tag, (check, slot, item class, class_first)): one evaluation per node
     tests: list = []     # (sequence type text, expected bool, tag)
     chain = list(res['chain']) if res['variety'] != 'eo' else []
     hsel = h64([r['xpath'], r['lexical'], chain])
@@ -577,10 +578,8 @@ def _judge_node(ev, b, spec, schema, r, pidx, xsd) -> list[Disc]:
             return tag + '@complex-type'
         if t == 'xs:NMTOKENS':
             return tag + '@builtin-list-type'
-        if not t.startswith('xs:'):
-            rt = G.resolve(spec, t)
-            if rt['variety'] == 'atomic' and rt['builtin'] == 'QName':
-                return tag + '@qname-derived-type'
+        if not t.startswith('xs:') and not G._qname_free(G.resolve(spec, t)):
+            return tag + '@qname-derived-type'
         return tag
 
     named = [t for t in chain if t not in ('xs:anyAtomicType', 'xs:anySimpleType')]
@@ -618,8 +617,8 @@ def _judge_node(ev, b, spec, schema, r, pidx, xsd) -> list[Disc]:
                     exprs.append((f'{r["xpath"]} instance of {st_text(t, True)}', True, tag + '/nilled-optional'))
             else:
                 exprs.append((f'{r["xpath"]} instance of {st_text(t)}', want, tag))
-        _run_boolean_batch(ev, b, exprs, pidx, discs, 'instance-of', sres['variety'] if sres is not None else 'element-only',
-                           tc, where)
+        batch += [(e, want, tag, ('instance-of', sres['variety'] if sres is not None else 'element-only', tc, False))
+                  for e, want, tag in exprs]
 
     # ---- (4) arithmetic / comparison use the typed value ---------------------------------------------------
     if sres is not None and exp and not r['nil']:
@@ -662,16 +661,18 @@ def _judge_node(ev, b, spec, schema, r, pidx, xsd) -> list[Disc]:
                     exprs.append((f'string-length({x}) = {len(cv)}', True, 'string-length'))
         if exprs:
             k = exp[0][2] + '/' + G.builtin_primitive(exp[0][0])
-            _run_boolean_batch(ev, b, exprs, pidx, discs, 'arith', union_slot(sres, exp), k, where, class_first=True)
+            batch += [(e, want, tag, ('arith', union_slot(sres, exp), k, True)) for e, want, tag in exprs]
+    if batch:
+        _run_boolean_batch(ev, b, batch, pidx, discs, where)
     return discs
 
 
-def _run_boolean_batch(ev, b, exprs, pidx, discs, check, container, tc, where, class_first=False):
+def _run_boolean_batch(ev, b, exprs, pidx, discs, where):
     """evaluate `(e1, e2, ...)` in one go; on an exception evaluate one by one to attribute it.
 
     bucket = C20/<check>/<container or root-cause class>/<failure kind>/<item type class>/<test tag>
     (class_first: C20/<check>/<container>/<item type class>/<primitive>/<failure kind>/<test tag>)"""
-    batch = '(' + ', '.join(f'({e})' for e, _, _ in exprs) + ')'
+    batch = '(' + ', '.join(f'({x[0]})' for x in exprs) + ')'
     try:
         got = ev.results(b.tree, batch, pidx, True)
         if not isinstance(got, list):
@@ -680,14 +681,13 @@ def _run_boolean_batch(ev, b, exprs, pidx, discs, check, container, tc, where, c
             raise ValueError('batch result length')
     except Exception:
         got = []
-        for e, want, tag in exprs:
+        for e, want, tag, meta in exprs:
             try:
                 g = ev.results(b.tree, e, pidx, True)
                 got.append(g[0] if isinstance(g, list) and len(g) == 1 else g)
             except Exception as ex:
                 got.append(ex)
-    for (e, want, tag), g in zip(exprs, got):
-        slot = container
+    for (e, want, tag, (check, slot, tc, class_first)), g in zip(exprs, got):
         if '@' in tag:       # root-cause class of the tested type overrides the container slot
             head, _, rest = tag.partition('@')
             cls, sep, tail = rest.partition('/')
@@ -795,13 +795,12 @@ def judge_select(case, rec: Recorder | None = None) -> list[Disc]:
             elif ra != rb:
                 sa, sb = set(ra), set(rb)
                 if sa == sb:
-                    kind, diff = 'order-or-duplicates', ra
+                    kind, nk = 'order-or-duplicates', _kind_of_addr(ra[0])
                 else:
                     extra, missing = sorted(sa - sb, key=repr), sorted(sb - sa, key=repr)
                     kind = 'extra' if extra and not missing else 'missing' if missing and not extra else 'both'
-                    diff = (extra + missing)
-                    kind += '/' + _kind_of_addr(diff[0])
-                discs.append(Disc(f'C20/select/{ctx}/{kind}/{vp}', rb, ra, where))
+                    nk = _kind_of_addr((extra + missing)[0])
+                discs.append(Disc(f'C20/select/{ctx}/{kind}/{vp}/{nk}', rb, ra, where))
             if rec is not None:
                 classes = ['path'] + ['path:' + f for f in feats]
                 if 'attr-step' in feats or 'attr-pred' in feats:
@@ -866,6 +865,16 @@ def judge_reapply(case, rec: Recorder | None = None) -> list[Disc]:
             ctx.schema = ev.proxy
             h3 = run(ctx, True, probe)
             n3 = addrs(ctx, True)
+            # history: node tree built and fully iterated (lazy attribute nodes exist, untyped), then the public
+            # apply_schema() of the root node, then evaluation on a context made from that node tree
+            from elementpath import XPathContext, get_node_tree
+            root_node = get_node_tree(b.tree, namespaces=ns)
+            for _ in root_node.iter():
+                pass
+            root_node.apply_schema(ev.proxy)
+            ctx2 = XPathContext(root_node, namespaces=ns)
+            h4 = run(ctx2, True, probe)
+            n4 = addrs(ctx2, True)
         except Exception as e:
             discs.append(Disc(esc_bucket('reapply', e), 'no exception', repr(e), where))
             if rec is not None:
@@ -876,13 +885,14 @@ def judge_reapply(case, rec: Recorder | None = None) -> list[Disc]:
             return [(type(v).__name__, canon_py(v)) for v in vals]
 
         for tag, got, want in (('set-after-use', h1, fresh), ('set-again', h3, fresh), ('first-use', h0, plain),
-                               ('removed', h2, plain)):
+                               ('removed', h2, plain), ('apply-on-iterated-tree', h4, fresh)):
             if sig(got) != sig(want):
                 i = next((k for k, (x, y) in enumerate(zip(sig(got), sig(want))) if x != y), min(len(got), len(want)))
                 discs.append(Disc(f'C20/reapply/values/{tag}', sig(want)[max(0, i - 1):i + 2], sig(got)[max(0, i - 1):i + 2],
                                   where + f' differs at item {i}'))
         for tag, got, want in (('set-after-use', n1, fresh_nodes), ('set-again', n3, fresh_nodes),
-                               ('first-use', n0, plain_nodes), ('removed', n2, plain_nodes)):
+                               ('first-use', n0, plain_nodes), ('removed', n2, plain_nodes),
+                               ('apply-on-iterated-tree', n4, fresh_nodes)):
             # compared as sets: document order between a defaulted attribute and the children is not judged here
             if sorted(got, key=repr) != sorted(want, key=repr):
                 d = sorted(set(got) ^ set(want), key=repr)
@@ -890,7 +900,7 @@ def judge_reapply(case, rec: Recorder | None = None) -> list[Disc]:
                                   want, got, where))
         if rec is not None:
             rec.case([h64(spec), h64(inst), 'reapply'], nontrivial=bool(typed) and
-                     any(not isinstance(v, UntypedAtomic) for v in fresh if v != '|' and v != 0),
+                     sum(1 for v in fresh if not isinstance(v, UntypedAtomic)) > len(typed) + 1,
                      classes=['history'] + (['history:defaulted-attr'] if 'defaulted-attr' in b.flags else []),
                      sample={'check': 'reapply', 'typed_nodes': len(typed), 'nodes': len(fresh_nodes)})
     return discs
@@ -957,7 +967,7 @@ def selftest():
 def jobs(tier, seed):
     q = tier == 'quick'
     shards = 16
-    n = 110 if q else 1500
+    n = 90 if q else 1200
     return [{'check': 'all', 'shard': i, 'n': n, 'seed': derive_seed(seed, 'C20', 'all', i)} for i in range(shards)]
 
 
